@@ -72,7 +72,9 @@ HARNESSES_LHNEW = [
     lh("outbyte.lh5", "harness_outbyte", ["REAL_LH5", "H_OUTBYTE"], {}, {}, "real output_byte: arbitrary 16 KiB ring, position, buffer fill < max_read", [], "output_byte",
        flags=["--arrays-uf-always"]),
     read_h("lh5", ["REAL_LH5"], 258),
-    read_h("lk7", ["REAL_LK7"], 514),
+    dict(read_h("lk7.short", ["REAL_LK7", "CODE_LEAF_CAP=283"], 258),
+         bounds="lk7 (real lib/lk7_decoder.c): as read.lh5, code-tree leaf restricted to 0..283 (LHARK lengths 3..258, all distance codes 0..63); the remaining length classes: read.lk7"),
+    read_h("lk7", ["REAL_LK7"], 514, tier="thorough", timeout=1800),
     read_h("lh6", ["REAL_LH6"], 258, tier="thorough", timeout=1800),
     read_h("lh7", ["REAL_LH7"], 258, tier="thorough", timeout=1800),
     read_h("lhx", ["REAL_LHX"], 258, tier="thorough", timeout=1800),
